@@ -159,19 +159,16 @@ static int run_pls(const kase *k){
   if(!allfinite_m(m->recalculated_y) || !allfinite_m(m->recalc_residuals)) fin = 0;
   long ortho = -1, recon = -1, vsum = -1, vgap = -1;
   if(fin){
-    double o = 0;   /* score orthogonality of the extracted latent variables */
-    for(int a = 0; a < npos && prefix; a++) for(int b = a + 1; b < npos; b++){
+    double o = 0;   /* score orthogonality of the latent variables that exist mathematically (the first k->rank) */
+    int ndef = k->rank < npos ? k->rank : npos;
+    for(int a = 0; a < ndef && prefix; a++) for(int b = a + 1; b < ndef; b++){
       double d = 0, na = 0, nb = 0;
       for(size_t i = 0; i < m->xscores->row; i++){ d += m->xscores->data[i][a] * m->xscores->data[i][b]; na += m->xscores->data[i][a] * m->xscores->data[i][a]; nb += m->xscores->data[i][b] * m->xscores->data[i][b]; }
       d = fabs(d) / sqrt(na * nb); if(d > o) o = d;
     }
     ortho = vq12(o);
+    vs = 0; for(int c = 0; c < ndef; c++) vs += m->xvarexp->data[c];   /* orthogonal scores: their variances add up to at most 100 % */
     vsum = vq9(vs > 100.0 ? (vs - 100.0) / 100.0 : 0.0);
-    if(prefix && npos == k->rank && k->rank > 0){   /* X exhausted: X_c = T P' */
-      matrix *Xc; NewMatrix(&Xc, k->nr, k->nc); centre(k, m->xcolaverage, m->xcolscaling, Xc);
-      recon = vq12(recon_err(Xc, m->xscores, m->xloadings, npos));
-      vgap = vq9(fabs(vs - 100.0) / 100.0);
-    }
   }
   emit_done("PLS", n, cls, fin, ortho, recon, vsum, vgap, "fin");
   return 0;
